@@ -62,6 +62,12 @@ CHECKS = {
  "C16": (MC, GXT + " + bounded-exhaustive families of size vectors x flush settings through the real producer",
          "Message-size vectors at/around each limit (MaxMessageBytes, per-partition batch limit, MaxRequestSize lowered inside the scenario) x Flush.{Messages,Bytes,Frequency,MaxMessages} x message formats v0/v1/v2 x 1-2 partitions x input-first / latency policies; GX scenarios with <=3-4 (quick) / <=4-6 (thorough) deviations; oracle at the simulated broker and on a byte tap of the connection: records per request <= MaxMessages, batch key+value bytes <= MaxMessageBytes unless single, frame <= MaxRequestSize, oversize message rejected and never sent, one outcome per message, flush liveness (no further input needed once a trigger fires).",
          "rejection is judged with a 36-byte margin around the version-dependent overhead constant; one broker, no faults.", "§6 C16"),
+ "C09": (EX, "bounded-exhaustive enumeration of (protocol body, version, <=k field deviations, codec) through the real two-pass encoder and decoder, with an independent wire reader; registry found by a go/parser scan of /repo at check time and cross-checked against a compiled table",
+         "76 request/response bodies x every version 0..max plus RecordBatch, MessageSet, Records, member metadata/assignment, sticky user data, request/response headers; a reflective generator builds a base value and every value differing in <=1 (quick) / <=2 (thorough) leaf slots; oracles: prep length == bytes written; decode(encode(v)) re-encodes to the same length/bytes and decodes to the same value; a deviation that changes the bytes changes the decoded value; length prefixes, CRC ranges (IEEE / Castagnoli), varints and compact encodings checked by an independent reader.",
+         "values come from small per-kind alphabets; records nested in Produce/Fetch are covered by the round-trip oracles only.", "§6 C09"),
+ "C10": (EX, "bounded-exhaustive single mutation of every valid encoding (truncation at every length, every bit flip, every 1/2/4-byte and varint overwrite with boundary values) plus all short byte strings, fed to every decode entry point in memory-capped child processes",
+         "Every response body x version, response header, RecordBatch, MessageSet, Records, fetch blocks with compressed payloads, member metadata/assignment, sticky user data: 1.3 M (quick) / 149 M (thorough) mutated inputs; oracle: value or error, no panic, no hang, allocation proportional to the input (plus what decompression legitimately yields), and a checksummed region that was altered never yields different records.",
+         "single mutations only; the allocation bound is 64 KiB + 1000 x input length (+ measured codec working set).", "§6 C10"),
 }
 NOT_YET = {}
 props = [json.loads(l) for l in open(os.path.join(ROOT, "properties.jsonl"))]
